@@ -181,11 +181,30 @@ def _snap(name="raw", ghost="raw0", via=None, gid=None):
     needed, which keeps the terms small."""
     def setup(E):
         lv = via(E) if via else E.frame.env[name]
-        g = z3.IntVal(gid or _GHOST_ID)     # a pre-state object of its own (no parameter is pinned to this id)
+        gid_ = gid or _GHOST_ID
+        if gid is None and len(E.frames) > 1 and getattr(E, "snap_ctr", None) is not None:
+            # snapshot made for a MODULAR call while the caller's own snapshot must stay valid (the caller has already
+            # consumed bytes): a ghost object of its own per call.  Opt-in (the calling contract's setup sets
+            # E.snap_ctr); without it nothing changes
+            E.snap_ctr += 1
+            gid_ = 990000 - E.snap_ctr
+        g = z3.IntVal(gid_)                 # a pre-state object of its own (no parameter is pinned to this id)
         E.assume(g != lv.t)
         gl = ListV(g, lv.et)
         E.assume(E.llen(gl) == E.llen(lv))
         for x, y in zip(E.larrs(gl), E.larrs(lv)):
+            if z3.is_quantifier(y):
+                # the buffer's array is a lambda (bytes were deleted earlier in the step): state the equality pointwise,
+                # triggered from both sides (an equation between an array constant and a lambda is not propagated)
+                k = E.fresh("ksnap", z3.IntSort())
+                yk = z3.simplify(z3.Select(y, k))
+                E.assume(z3.ForAll([k], z3.Select(x, k) == yk, patterns=[z3.Select(x, k)]))
+                if z3.is_app_of(yk, z3.Z3_OP_SELECT):
+                    try:
+                        E.assume(z3.ForAll([k], z3.Select(x, k) == yk, patterns=[yk]))
+                    except z3.Z3Exception:
+                        pass
+                continue
             E.assume(x == y)
         E.frame.env[ghost] = gl
     return setup
